@@ -165,6 +165,13 @@ func runSRx(c *srCase, stats *srStats) (e *oerr, nq int) {
 				}
 			}
 			// B: against what the writer said. T = 64-bit time congruent to ts nearest to the writer's position
+			if d := int64(int32(ts - uint32(xf))); d >= 1<<31-2 || d <= -(1<<31)+2 {
+				// within a tick of exactly half the 32-bit range from the writer's position: which of the two
+				// congruent 64-bit times is "nearest" flips with the rounding of the report's own RTP time
+				// (floor here, round-to-nearest in the report); the statement cannot tell them apart - part A
+				// (against the report itself) has judged this probe
+				continue
+			}
 			T := xf + int64(int32(ts-uint32(xf)))
 			estB := float64(gotNs-ref.ntpj) - float64(T-ref.tj)*1e9/float64(rate)
 			if estB < minErr {
